@@ -161,6 +161,16 @@ def stream_sigrep(ctx, rng, N, given=None):
             line = {'op': 'poly.sigrep', 'p': {'k': 'sigL', 'poly': True, 'n': leaf['n'], 'alpha': st.mat_json(p.alpha), 'c': pcells},
                     'chat': [CHAT0 + k for k in range(8)]}
             oracle = sigrep_oracle(rng, p, sr, cons, env)
+            if not oracle:
+                # the same polynomial scaled AFTER its representative was computed (what `-f`, `2 * f` of an already relaxed f are): the
+                # representative of the product is a minorant of the product
+                for kk in (-1.0, 3.0, -2.0):
+                    q = kk * p if kk != -1.0 else -p
+                    srq, consq = q.sig_rep
+                    o2 = sigrep_oracle(rng, q, srq, consq, env)
+                    if o2:
+                        oracle = 'after p.sig_rep had been used, for %g * p: %s' % (kk, o2)
+                        break
         except Exception as e:  # noqa: BLE001
             io = {'raises': type(e).__name__, 'msg': str(e)[:120]}
             line = {'op': 'poly.sigrep', 'p': leaf, 'chat': [CHAT0 + k for k in range(8)]}
